@@ -462,7 +462,9 @@ func (g *PageGen) table(data bool) string {
 // hideAttrs: every attribute-level hiding technique; hideTags: elements that may carry it,
 // among them the ones the converter rewrites while walking (font, javascript: anchors)
 var hideAttrs = []string{`hidden`, `hidden="hidden"`, `style="display:none"`, `style="DISPLAY:NONE"`, `style="display: none !important"`,
-	`style="color:red; display :none;"`, `style="visibility:hidden"`, `style="margin:0;visibility: collapse"`, `aria-hidden="true"`}
+	`style="color:red; display :none;"`, `style="visibility:hidden"`, `style="margin:0;visibility: collapse"`, `aria-hidden="true"`,
+	`style="visibility : hidden"`, `style="VISIBILITY :collapse;"`, `style="display:block;display:none"`, `style="display:none!important;display:block"`,
+	`style="display:inline; color:red; display: none"`, `style="visibility:visible;visibility:hidden"`}
 var hideTags = []string{"div", "span", "p", "section", "article", "font", "b", "i", "em", "strong", "u", "code", "a", "h2", "h4",
 	"ul", "ol", "li", "blockquote", "pre", "center", "small", "label", "aside", "details", "dl", "address"}
 
